@@ -124,9 +124,14 @@ def _interval_setup(vc):
 
 
 def _cutoff(vc, L, f):
+    """rows outside the requested top fraction: floor(L (1 - f)).  The code rounds the product to 8 decimals first (a guard against
+    float products such as 9.999999999999998); the two agree unless L (1 - f) lies within 1e-8 below a whole number of rows -- such
+    fractions (of measure 1e-8) are excluded here, where arithmetic is exact"""
     x = L * (1 - f)
     vc.lemma("cutoff_range", S.And(x >= 0, x <= L))
-    return vc.to_int(x)
+    cut = vc.to_int(x)
+    vc.assume(S.cmp("<", x - cut, 1 - 1e-8))
+    return cut
 
 
 @contract("C14", "get_interval_all", native=False, replay_with="readouts_native")
@@ -234,7 +239,10 @@ def readouts_native(vc):
     # highest-density read-out
     if len(sel) >= 1:
         f = vc.choice("interval", [0.1, 0.5, 0.9, 0.95])
-        cut = int(len(sel) * (1 - f))
+        # the rows outside the requested top fraction: floor(L (1 - f)) of them, in EXACT arithmetic (f is a decimal fraction; the
+        # float product L * (1 - 0.9) is 9.999999999999998 for L = 100, which must not keep a 91st row)
+        from fractions import Fraction
+        cut = int(len(sel) * (1 - Fraction(str(f))))
         order = np.argsort(P[sel], kind="stable")
         s_all, p_all = ch.get_interval(interval=f, burn=burn, thin=thin)
         top_p = np.sort(P[sel])[cut:]
@@ -247,7 +255,7 @@ def readouts_native(vc):
         sel1 = list(range(burn, N, 1))
         thin_k = max(len(sel1) // k, 1)
         selk = list(range(burn, N, thin_k))
-        cutk = int(len(selk) * (1 - f))
+        cutk = int(len(selk) * (1 - Fraction(str(f))))
         s_k, p_k = ch.get_interval(interval=f, burn=burn, thin=thin, samples=k)
         thr = np.sort(P[selk])[cutk] if len(selk) > cutk else np.inf
         ok = np.ndim(s_k) == 2 and np.ndim(p_k) == 1 and len(p_k) == s_k.shape[0] and len(p_k) == min(k, len(selk) - cutk)
@@ -255,3 +263,29 @@ def readouts_native(vc):
             for r in range(len(p_k)):
                 ok = ok and p_k[r] >= thr and any(P[t] == p_k[r] and np.array_equal(X[t], s_k[r]) for t in selk)
         vc.ensures("get_interval.count_subset_of_top_fraction", bool(ok))
+
+
+@bounded("C14", "interval_fraction_exact_native", native_runs=6)
+def interval_fraction_exact_native(vc):
+    """the requested top fraction, counted exactly: 100 retained samples and interval=0.9 (or 0.8, 0.6) are 90 (80, 60) rows, although
+    the float products 100 * (1 - 0.9) = 9.999999999999998 etc. fall just below the integer"""
+    from fractions import Fraction
+    from contracts.common import Posterior, make_sampler, stored_points, quiet
+    kind = vc.choice("sampler", ["gibbs", "pca", "hmc", "ensemble"])
+    seed = vc.int("seed", lo=0, hi=10 ** 6)
+    rng = np.random.default_rng(seed)
+    d = 2
+    post = Posterior("gauss", d, rng)
+    ch = make_sampler(kind, post, d, rng, seed=seed)
+    L = vc.choice("retained", [10, 50, 100])
+    per = ch.n_walkers if kind == "ensemble" else 1
+    quiet(ch.advance, 3 * L // per + 3)
+    X, P = stored_points(ch)
+    burn = len(P) - L
+    ok = True
+    for f in (0.9, 0.8, 0.6, 0.7):
+        s_all, p_all = ch.get_interval(interval=f, burn=burn, thin=1)
+        want = L - int(L * (1 - Fraction(str(f))))
+        vc.inputs[f"rows_for_{f}"] = [int(len(p_all)), want]
+        ok = ok and len(p_all) == want and s_all.shape == (want, d) and bool(np.allclose(np.sort(p_all), np.sort(P[burn:])[L - want:]))
+    vc.ensures("rows_of_exactly_the_requested_top_fraction", bool(ok))
